@@ -411,3 +411,47 @@ def _(v):
     except Exception as ex:
         ok, det = False, repr(ex)[:200]
     v.prove("sympy_symbols_give_a_symbolic_answer", ok, detail=det)
+
+
+# ---------------------------------------------------------------------------- sulfuric acid density (Myhre 1998): units of the mass fraction, shape
+@harness("C19", "sulfuric_acid_density", functions=["chempy.properties.sulfuric_acid_density_myhre_1998:sulfuric_acid_density"], kind="data")
+def _(v):
+    """(a) 'the same physical value whether its inputs are plain numbers in the documented units or quantities expressed in any compatible units':
+    the mass fraction given as 50 percent or 500 g/kg is the mass fraction 0.5, with and without a units object, and the range warning is
+    decided on that value; a quantity that is no pure number is refused. (b) 'qualitative shape': the density of the acid falls with rising
+    temperature at every composition of the documented range 0.1..0.9, 0..50 C (a physical fact, not a transcription of the code)"""
+    import warnings
+    import numpy as np
+    from chempy.properties.sulfuric_acid_density_myhre_1998 import sulfuric_acid_density as f
+    from chempy.units import default_units as u, to_unitless
+    with warnings.catch_warnings(record=True) as ws:
+        warnings.simplefilter("always")
+        plain = float(f(0.5, 293.0))
+    bad = []
+    for label, w in (("percent", 50 * u.percent), ("g_per_kg", 500 * u.g / u.kg), ("pure_number_quantity", 0.5 * u.dimensionless)):
+        with warnings.catch_warnings(record=True) as ws:
+            warnings.simplefilter("always")
+            try:
+                got = float(to_unitless(f(w, 293.0 * u.K, units=u), u.kg / u.m ** 3))
+                if abs(got / plain - 1) > 1e-12 or ws:
+                    bad.append((label, got, [str(x.message) for x in ws]))
+            except Exception as ex:
+                bad.append((label, repr(ex)[:80]))
+    v.prove("mass_fraction_in_scaled_units", not bad and 1390 < plain < 1400, detail=repr(bad))
+    try:
+        f(0.5 * u.kg, 293.0 * u.K, units=u)
+        ok = False
+    except Exception:
+        ok = True
+    v.prove("mass_fraction_with_a_dimension_refused", ok)
+    with warnings.catch_warnings(record=True) as ws:
+        warnings.simplefilter("always")
+        f(5 * u.percent, 293.0 * u.K, units=u)
+    v.prove("range_warning_decided_on_the_value", any("fraction" in str(x.message).lower() for x in ws))
+    Ts = np.linspace(273.15, 323.15, 11)
+    for w in (0.1, 0.3, 0.5, 0.7, 0.9):
+        with warnings.catch_warnings():
+            warnings.simplefilter("ignore")
+            rho = [float(f(w, T)) for T in Ts]
+        rising = [(round(float(Ts[i] - 273.15)), round(rho[i], 1), round(rho[i + 1], 1)) for i in range(len(rho) - 1) if not rho[i + 1] < rho[i]]
+        v.prove("falls_with_temperature.w_%02d" % round(w * 10), not rising, detail=repr(rising[:3]))
